@@ -48,6 +48,9 @@ pub assume_specification<T, E>[ core::result::Result::<T, E>::unwrap_or ](r: cor
     ensures res == (match r { Ok(t) => t, Err(_) => default });
 pub assume_specification<T: PartialEq>[ <[T]>::contains ](s: &[T], x: &T) -> (r: bool)
     ensures T::obeys_eq_spec() ==> (r <==> exists|i: int| 0 <= i < s@.len() && (#[trigger] s@[i]).eq_spec(x));
+pub assume_specification<T, F: FnOnce(T) -> bool>[ Option::<T>::is_some_and ](o: Option<T>, f: F) -> (r: bool)
+    requires o is Some ==> call_requires(f, (o.unwrap(),)),
+    ensures o is None ==> !r, o is Some ==> call_ensures(f, (o.unwrap(),), r);
 pub assume_specification[ isize::unsigned_abs ](x: isize) -> (r: usize)
     ensures r as int == (if x >= 0 { x as int } else { -(x as int) });
 
